@@ -364,8 +364,35 @@ def gen_hold_script(rng, nhosts=None):
     return {"cfg": cfg, "steps": steps, "flavour": "hold"}
 
 
+def gen_burst_script(rng):
+    """C14: a large burst on one direction falling due in a single tick, small latency window
+    (many equal delivery instants), so that ordering among ties is exercised at scale."""
+    cfg = base_cfg(rng, nhosts=rng.choice([2, 3]), fail=0.0, lat=(0, rng.choice([1, 2, 3])))
+    cfg["tick_us"] = rng.choice([10000, 20000, 50000])
+    cfg["curve"] = rng.choice([0.3, 0.7, 1.5, 5.0])
+    n = cfg["nhosts"]
+    ids = IdGen()
+    steps = [WARMUP()]
+    for _ in range(rng.randrange(1, 3)):
+        a, b = rng.sample(range(n), 2)
+        hosts = {str(a): [["send", b, ids.next()] for _ in range(rng.randrange(22, 70))]}
+        if rng.random() < 0.5:
+            hosts[str(b)] = [["send", a, ids.next()] for _ in range(rng.randrange(5, 40))]
+        ctl = []
+        if rng.random() < 0.3:
+            ctl.append(["set_link_max", {"h": a}, {"h": b}, rng.choice([1, 2, 4])])
+        steps.append({"ctl": ctl, "hosts": hosts})
+        steps.append({"ctl": [], "hosts": {}})
+    for _ in range(3):
+        steps.append({"ctl": [], "hosts": {}})
+    steps[-1]["ctl"].append(["links"])
+    return {"cfg": cfg, "steps": steps, "flavour": "burst"}
+
+
 def gen_latency_script(rng, nhosts=None):
     """C14: healthy links, latency overrides, bursts."""
+    if rng.random() < 0.12:
+        return gen_burst_script(rng)
     cfg = base_cfg(rng, nhosts=nhosts, fail=0.0)
     n = cfg["nhosts"]
     ids = IdGen()
